@@ -1575,6 +1575,17 @@ class Interp:
         args = [self.ev(a, env) for a in n["args"]]
         if cn in self.models:
             return self.models[cn](self, [recv] + args)
+        # Option's in-place setters: the receiver is a place
+        if name in ("get_or_insert", "insert", "replace") and len(args) == 1 and "option::Option" in cn and isinstance(recv, Var) and (recv.path in SOME_PATHS or recv.path in NONE_PATHS):
+            if name == "get_or_insert" and recv.path in SOME_PATHS:
+                return recv.args[0]
+            place = n["recv"]
+            while isinstance(place, dict) and place.get("k") in ("AddrOf", "Deref") and "e" in place:
+                place = place["e"]
+            r = self.assign_place(place, Var(SOME_PATHS[0], [args[0]]), env)
+            if is_unknown(r):
+                return r
+            return recv if name == "replace" else args[0]
         # `x.into()` through a local `From<X> for Y` impl (Y is the type of the call expression)
         if name == "into" and not args:
             r = self.local_from(recv, base_ty(self.F.ty(n) or ""))
